@@ -72,27 +72,34 @@ End ODmap.
 (* ------------------------------------------------------------------ plain libraries *)
 Definition plain_sym (s : sym) : Prop := s_mods s = [] /\ NoDup (s_prefixes s).
 
+(* a type alias of a built-in without modifications in the type definition: type T = Real; *)
+Inductive alias : cdef -> Prop :=
+| Alias n t : mem_id t BUILTIN = true -> n <> t -> alias (CDef n kType [] [([t], [])] [] []).
+
 Inductive plain : cdef -> Prop :=
 | Plain n k cs ss es :
-    k <> kBuiltin -> k <> kType -> Forall plain cs -> Forall plain_sym ss -> NoDup (map s_name ss) ->
+    k <> kBuiltin -> k <> kType -> Forall (fun c => plain c \/ alias c) cs -> Forall plain_sym ss ->
+    NoDup (map s_name ss) ->
     plain (CDef n k cs [] ss es).
 
-Definition fplain (fr : frame) : Prop := Forall (fun e => plain (e_def e)) (f_entries fr).
+Definition pclass (c : cdef) : Prop := plain c \/ alias c.
 
-Lemma plain_classes c : plain c -> Forall plain (c_classes c).
-Proof. inversion 1; assumption. Qed.
+Definition fplain (fr : frame) : Prop := Forall (fun e => pclass (e_def e)) (f_entries fr).
 
-Lemma entries_plain lex cs : Forall plain cs -> Forall (fun e => plain (e_def e)) (entries_of lex cs).
+Lemma plain_classes c : pclass c -> Forall pclass (c_classes c).
+Proof. intros [H|H]; inversion H; simpl; [assumption | constructor]. Qed.
+
+Lemma entries_plain lex cs : Forall pclass cs -> Forall (fun e => pclass (e_def e)) (entries_of lex cs).
 Proof. unfold entries_of. intros H. apply Forall_map. simpl. exact H. Qed.
 
-Lemma own_frame_plain c lex : plain c -> fplain (own_frame c lex).
+Lemma own_frame_plain c lex : pclass c -> fplain (own_frame c lex).
 Proof. intros H. unfold fplain, own_frame; simpl. apply entries_plain, plain_classes, H. Qed.
 
 Lemma pos_eqb_spec' : forall a b : positive, Pos.eqb a b = true <-> a = b.
 Proof. intros; apply Pos.eqb_eq. Qed.
 
 Lemma descend_plain : forall rest c lex c' lex',
-  plain c -> descend c lex rest = Some (c', lex') -> plain c'.
+  pclass c -> descend c lex rest = Some (c', lex') -> pclass c'.
 Proof.
   induction rest as [|n rest IH]; intros c lex c' lex' Hc H; simpl in H.
   - inversion H; subst; assumption.
@@ -101,7 +108,7 @@ Proof.
 Qed.
 
 Lemma descend_frames_plain : forall rest c lex,
-  plain c -> Forall fplain (descend_frames c lex rest).
+  pclass c -> Forall fplain (descend_frames c lex rest).
 Proof.
   induction rest as [|n rest IH]; intros c lex Hc; simpl; [constructor|].
   destruct (od_get c_name Pos.eqb n (c_classes c)) as [c1|] eqn:E; [|constructor].
@@ -111,12 +118,12 @@ Proof.
 Qed.
 
 Lemma lookup_plain : forall S ref c lex S' b,
-  Forall fplain S -> lookup S ref = Some (c, lex, S', b) -> plain c /\ Forall fplain S'.
+  Forall fplain S -> lookup S ref = Some (c, lex, S', b) -> pclass c /\ Forall fplain S'.
 Proof.
   induction S as [|fr S IH]; intros ref c lex S' b HS H; destruct ref as [|n rest]; simpl in H; try discriminate.
   inversion HS as [|? ? Hfr HS']; subst.
   destruct (od_get e_key Pos.eqb n (f_entries fr)) as [e|] eqn:E.
-  - assert (plain (e_def e)) as He
+  - assert (pclass (e_def e)) as He
       by (apply (proj1 (Forall_forall _ _) Hfr e (od_get_In _ _ _ _ _ E))).
     destruct (descend (e_def e) (e_lex e) rest) as [[c1 lex1]|] eqn:D.
     + inversion H; subst. split; [eapply descend_plain; eauto|].
@@ -270,6 +277,38 @@ Proof.
   inversion B. eexists _, _, _, _. reflexivity.
 Qed.
 
+(* ------------------------------------------------------------------ build on an alias class *)
+Lemma path_eqb_single t lex n : n <> t -> path_eqb ([] ++ [t]) (lex ++ [n]) = false.
+Proof.
+  intros N. destruct lex as [|a l]; cbn [app path_eqb].
+  - destruct (Pos.eqb_spec t n); [congruence | reflexivity].
+  - destruct l; cbn [app path_eqb]; rewrite andb_false_r; reflexivity.
+Qed.
+
+Lemma build_alias root f c lex parent i :
+  alias c -> build root f c lex parent [] [] = Ok i ->
+  exists r m t, i = Inst r kBuiltin [ISym iValueSym [] [] (TyElem [t]) []] [] m /\
+                c = CDef (c_name c) kType [] [([t], [])] [] [] /\ mem_id t BUILTIN = true /\ f <> 0.
+Proof.
+  intros [n t Ht Hn] B.
+  destruct f as [|[|[|f]]]; try (cbn [build flatten_extends bind] in B; discriminate B).
+  - (* fuel 2: the inner flatten_extends runs out of fuel *)
+    cbn [build flatten_extends c_exts fold_left bind fst snd length] in B.
+    unfold find_base in B. cbn [head_id] in B. rewrite Ht in B. cbn [bind c_name builtin_class c_kind] in B.
+    rewrite (path_eqb_single t lex n Hn) in B. cbn [bind] in B. discriminate B.
+  - cbn [build flatten_extends c_exts fold_left bind fst snd length] in B.
+    unfold find_base in B. cbn [head_id] in B. rewrite Ht in B.
+    cbn [bind c_name builtin_class c_kind c_exts c_classes c_syms c_eqs fold_left] in B.
+    rewrite (path_eqb_single t lex n Hn) in B.
+    cbv beta iota zeta delta [bind x_kind x_classes x_syms x_eqs x_menv Pos.eqb kBuiltin Nat.ltb Nat.leb andb
+                              od_update fold_left od_set entries_of map app add_value_mods s_name s_type
+                              s_prefixes s_dims s_mods iValueSym poison negb forallb mem_id head_id existsb
+                              m_target orb] in B.
+    cbn [build_syms s_name s_type head_id] in B. rewrite Ht in B.
+    cbn [filter flat_map app s_mods s_prefixes s_dims rev bind fst snd] in B.
+    inversion B. eexists _, _, t. repeat split; try reflexivity; try assumption. discriminate.
+Qed.
+
 (* ------------------------------------------------------------------ the symbol loop of build *)
 Inductive built (root : list cdef) (f : nat) (me : scope) : sym -> isym -> Prop :=
 | BElem s :
@@ -278,15 +317,16 @@ Inductive built (root : list cdef) (f : nat) (me : scope) : sym -> isym -> Prop 
 | BInst s tc tlex tparent b i :
     mem_id (head_id (s_type s)) BUILTIN = false ->
     lookup me (s_type s) = Some (tc, tlex, tparent, b) ->
+    pclass tc -> Forall fplain tparent ->
     build root f tc tlex tparent [] [] = Ok i ->
     built root f me s (ISym (s_name s) (s_prefixes s) (s_dims s) (TyInst i) []).
 
-Lemma build_syms_plain root f me myref : forall ss acc l rest,
+Lemma build_syms_plain root f me myref : Forall fplain me -> forall ss acc l rest,
   Forall plain_sym ss ->
   build_syms (build root f) (extends_builtin root f) me myref ss [] [] acc = Ok (l, rest) ->
   exists l', l = rev acc ++ l' /\ Forall2 (built root f me) ss l'.
 Proof.
-  induction ss as [|s ss IH]; intros acc l rest Hp H; cbn [build_syms] in H.
+  intros Hme. induction ss as [|s ss IH]; intros acc l rest Hp H; cbn [build_syms] in H.
   - inversion H; subst. exists []. rewrite app_nil_r. split; [reflexivity | constructor].
   - inversion Hp as [|? ? [Hm Hnd] Hp']; subst.
     destruct (mem_id (head_id (s_type s)) BUILTIN) eqn:E.
@@ -303,11 +343,12 @@ Proof.
               /\ build_syms (build root f) (extends_builtin root f) me myref ss [] []
                    (ISym (s_name s) (s_prefixes s) (s_dims s)
                       (TyInst (match build root f tc tlex tparent [] [] with Ok i => i | Err _ => Inst [] xH [] [] [] end)) [] :: acc) = Ok (l, rest)) as [B H'].
-      { destruct ib; cbn [flat_map shift_args bind app map] in H; destruct b; cbn [app] in H;
+      { destruct ib; cbn [flat_map shift_args bind app map] in H; destruct b; cbn [app map] in H;
           destruct (build root f tc tlex tparent [] []) as [i|err]; cbn [bind] in H;
           try discriminate H; split; (reflexivity || exact H). }
       apply IH in H'; [|assumption]. destruct H' as [l' [-> F]].
       eexists (_ :: l'). split; [cbn [rev]; rewrite <- app_assoc; reflexivity|].
+      destruct (lookup_plain _ _ _ _ _ _ Hme L) as [Htc Htp].
       constructor; [eapply BInst; eassumption | assumption].
 Qed.
 
@@ -346,7 +387,7 @@ Proof.
   intros IHf Hme Hsim ss l' F. induction F as [|s y ss l' Hb F IH]; intros Hp flat feqs r Hc H.
   - cbn [fs_go] in H. inversion H; subst. cbn [inst_syms fst snd]. split; [reflexivity | assumption].
   - inversion Hp as [|? ? [Hm Hnd] Hp']; subst.
-    destruct Hb as [s E | s tc tlex tparent b i E L B].
+    destruct Hb as [s E | s tc tlex tparent b i E L Htc Htp B].
     + cbn [fs_go] in H. cbn [inst_syms].
       rewrite (elem_type_builtin f sc (s_type s) E). rewrite Hm.
       change (sub_mods (s_name s) [] ++ flat_args (Some prefix) []) with (@nil mentry).
@@ -355,9 +396,25 @@ Proof.
       specialize (IH Hp' (f_update flat [mkF (prefix ++ [s_name s]) (s_type s) (strip_io prefix (s_prefixes s)) (s_dims s) [] []]) feqs r).
       rewrite var_of_update in IH. apply IH; [|exact H].
       apply clean_update; [assumption | constructor; [split; reflexivity | constructor]].
-    + destruct (lookup_plain _ _ _ _ _ _ Hme L) as [Htc Htp].
-      pose proof (lookup_sim me sc (s_type s) Hsim) as LS. rewrite L in LS.
+    + pose proof (lookup_sim me sc (s_type s) Hsim) as LS. rewrite L in LS.
       destruct LS as [tS [b2 [L2 Hs2]]].
+      destruct Htc as [Htc|Hal].
+      2:{ (* the type is an alias of a built-in: the component is a leaf *)
+        destruct (build_alias root f tc tlex tparent i Hal B) as [ra [rm [t [-> [Etc [Ht Hf]]]]]].
+        cbn [fs_go] in H.
+        change (collapses (Inst ra kBuiltin [ISym iValueSym [] [] (TyElem [t]) []] [] rm))
+          with (Some (ISym iValueSym [] [] (TyElem [t]) [])) in H.
+        cbn [app] in H.
+        destruct f as [|f']; [congruence|].
+        cbn [inst_syms]. cbn [elem_type]. rewrite E, L2, Etc. cbn [c_kind c_exts].
+        change (Pos.eqb kType kType) with true. cbv iota.
+        rewrite (elem_type_builtin f' _ [t] Ht). rewrite Hm.
+        change (sub_mods (s_name s) [] ++ flat_args (Some prefix) []) with (@nil mentry).
+        change (leaf_attrs ([] ++ (flat_args None [] ++ []))) with (@nil (ident * expr * option path)).
+        rewrite <- (strip_drop prefix (s_prefixes s) Hnd).
+        specialize (IH Hp' (f_update flat [mkF (prefix ++ [s_name s]) [t] (strip_io prefix (s_prefixes s)) (s_dims s) [] []]) feqs r).
+        rewrite var_of_update in IH. apply IH; [|exact H].
+        apply clean_update; [assumption | constructor; [split; reflexivity | constructor]]. }
       destruct (build_kind root f tc tlex tparent i Htc B) as [ra [rb [rd [re ->]]]].
       destruct (plain_kind tc Htc) as [K1 K2].
       cbn [fs_go] in H. rewrite (collapses_plain ra (c_kind tc) rb rd re K1 K2) in H.
@@ -407,13 +464,13 @@ Proof.
       cbn [bind] in B; [|discriminate B].
     inversion B; subst i; clear B. cbn [fst snd] in Fs.
     inversion Hc as [nm k cs ss es Hk Ht Hcs Hss Hnd]; subst c.
-    destruct (build_syms_plain root (S f) _ _ _ _ _ _ Hss BS) as [l' [-> F]].
-    cbn [rev app c_syms c_kind c_eqs] in *.
-    cbn [flatten_symbols] in Fs.
-    destruct (fs_go flatten_symbols prefix l' [] []) as [[flat feqs]|err] eqn:G; cbn [bind] in Fs; [|discriminate Fs].
     assert (Forall fplain (me_of (CDef nm k cs [] ss es) lex parent)) as Hme.
     { constructor; [|assumption]. unfold fplain. cbn [f_entries].
       apply od_update_Forall; [constructor | apply entries_plain; assumption]. }
+    destruct (build_syms_plain root (S f) _ _ Hme _ _ _ _ Hss BS) as [l' [-> F]].
+    cbn [rev app c_syms c_kind c_eqs] in *.
+    cbn [flatten_symbols] in Fs.
+    destruct (fs_go flatten_symbols prefix l' [] []) as [[flat feqs]|err] eqn:G; cbn [bind] in Fs; [|discriminate Fs].
     assert (sim (me_of (CDef nm k cs [] ss es) lex parent) (class_scope (S f) (CDef nm k cs [] ss es) lex Sp)) as Hs.
     { unfold me_of, class_scope. rewrite all_classes_plain by reflexivity.
       constructor; [split; reflexivity | assumption]. }
@@ -452,18 +509,20 @@ Qed.
 Lemma conv_var_clean s : conv_var (var_of s) = var_of s.
 Proof. unfold conv_var. destruct (is_variable (var_of s)); reflexivity. Qed.
 
-Definition plain_lib (root : list cdef) : Prop := Forall plain root.
+(* every class is a plain model/package/... or an alias `type T = Real;` *)
+Definition plain_lib (root : list cdef) : Prop := Forall pclass root.
 
 Theorem refines_flat root top r :
-  plain_lib root -> flatten root top = Ok r ->
+  plain_lib root -> ~ (exists c lex Sp b, lookup (lex_scope root []) top = Some (c, lex, Sp, b) /\ alias c) ->
+  flatten root top = Ok r ->
   Forall clean (fst r) /\ PV.Lib.Inst.inst root top = Some (map var_of (fst r), snd r).
 Proof.
-  intros Hroot H. unfold flatten in H. unfold PV.Lib.Inst.inst.
+  intros Hroot Htop H. unfold flatten in H. unfold PV.Lib.Inst.inst.
   destruct (lookup (lex_scope root []) top) as [[[[c lex] parent] b]|] eqn:L; [|discriminate H].
   assert (Forall fplain (lex_scope root [])) as Hsc.
   { unfold lex_scope. cbn [lex_frames_from]. constructor; [|constructor].
     unfold fplain. cbn [f_entries]. apply entries_plain. exact Hroot. }
-  destruct (lookup_plain _ _ _ _ _ _ Hsc L) as [Hc Hpar].
+  destruct (lookup_plain _ _ _ _ _ _ Hsc L) as [[Hc|Hal] Hpar]; [|exfalso; apply Htop; eexists _, _, _, _; split; [reflexivity | exact Hal]].
   destruct (build root FUEL c lex parent [] []) as [i|err] eqn:B; cbn [bind] in H; [|discriminate H].
   destruct (flatten_symbols i []) as [[flat eqs]|err] eqn:Fs; cbn [bind] in H; [|discriminate H].
   inversion H; subst r; clear H.
